@@ -644,8 +644,279 @@ def _is_not_leaf(test: ast.AST, pol: bool) -> bool:
         and not pol
     )
 
+# ---------------------------------------------------------------------------
+# disjoint sets: the block counter follows the links
+
+
+def groups_pairing(prog: Program) -> RuleResult:
+    res = RuleResult(
+        "GROUPS-PAIRING",
+        "in DisjointSet.unite every path that links two representatives (a store into self.parent) decrements the "
+        "block counter exactly once and returns True; every path that links nothing leaves the counter alone and "
+        "returns False (len() is the counter, and tree_from_triples stops on len(partition) <= 1)",
+    )
+    from ..flow import consistent, paths
+
+    modname = "utils.disjoint_set"
+    mod = prog.module(modname)
+    cls = prog.cls(modname, "DisjointSet")
+    fn = method_def(cls, "unite")
+    if fn is None:
+        raise AnalysisError("DisjointSet.unite not found")
+    counter = _len_counter(cls)
+    n = 0
+    for path in paths(fn.body):
+        if path.end != "return" or not consistent(path.conds):
+            continue
+        links = decs = 0
+        for ev in path.events:
+            if isinstance(ev, ast.Assign):
+                for tgt in ev.targets:
+                    if isinstance(tgt, ast.Subscript) and dotted(tgt.value) == "self.parent":
+                        links += 1
+            if isinstance(ev, ast.AugAssign) and dotted(ev.target) == f"self.{counter}":
+                if isinstance(ev.op, ast.Sub) and isinstance(ev.value, ast.Constant) and ev.value.value == 1:
+                    decs += 1
+                else:
+                    decs += 99
+            if isinstance(ev, ast.Assign) and any(dotted(t) == f"self.{counter}" for t in ev.targets):
+                decs += 99
+        ret = path.events[-1]
+        rv = ret.value.value if isinstance(ret, ast.Return) and isinstance(ret.value, ast.Constant) else None
+        n += 1
+        conds = " and ".join(("" if p else "not ") + short(t, 40) for t, p in path.conds) or "always"
+        construct = f"{modname}:DisjointSet.unite/path[{conds}]"
+        want_decs, want_rv = (1, True) if links else (0, False)
+        if links > 1:
+            res.fail(construct, f"{links} links on one path", mod, ret)
+        elif decs != want_decs:
+            res.fail(
+                construct,
+                f"this path {'links two sets' if links else 'links nothing'} but changes the block counter "
+                f"`self.{counter}` {decs if decs < 99 else 'in an unrecognised way'} time(s) (expected {want_decs}): len() drifts from the number of blocks",
+                mod,
+                ret,
+            )
+        elif rv is not want_rv:
+            res.fail(construct, f"this path {'links' if links else 'does not link'} but returns `{short(ret.value)}`", mod, ret)
+        else:
+            res.ok(construct, f"links={links}, counter decrements={decs}, returns {rv}")
+    if n < 3:
+        raise AnalysisError(f"GROUPS-PAIRING: only {n} return paths in unite")
+    return res
+
+
+def _len_counter(cls: ast.ClassDef) -> str:
+    fn = method_def(cls, "__len__")
+    if fn is None:
+        raise AnalysisError("DisjointSet.__len__ not found")
+    rets = [n for n in walk_no_nested(fn) if isinstance(n, ast.Return)]
+    if len(rets) == 1 and isinstance(rets[0].value, ast.Attribute) and dotted(rets[0].value.value) == "self":
+        return rets[0].value.attr
+    raise AnalysisError("DisjointSet.__len__ does not return a counter attribute")
+
+
+# ---------------------------------------------------------------------------
+# supertrees: the leaf set comes from the trees
+
+
+def leaves_source(prog: Program) -> RuleResult:
+    res = RuleResult(
+        "LEAVES-SOURCE",
+        "trees_to_triples collects the leaf set from the leaves of every input tree (first component of "
+        "tree_to_triples(tree) or the tree's own leaves), inside the loop over the trees - a tree with fewer "
+        "than three leaves contributes leaves but no triple, so a leaf set derived from the triples loses them",
+    )
+    mod = prog.module(TREES)
+    fn = prog.func(TREES, "trees_to_triples")
+    params = func_params(fn)
+    rets = [n for n in walk_no_nested(fn) if isinstance(n, ast.Return) and n.value is not None]
+    if len(rets) != 1 or not isinstance(rets[0].value, ast.Tuple) or len(rets[0].value.elts) != 2:
+        raise AnalysisError("trees_to_triples: expected a single `return <leaves>, <triples>`")
+    acc = _unwrap_collection(rets[0].value.elts[0])
+    if acc is None:
+        raise AnalysisError(f"trees_to_triples: returned leaves `{short(rets[0].value.elts[0])}` is not an accumulator name")
+    construct = f"{TREES}:trees_to_triples/leaf-set"
+    loops = [n for n in walk_no_nested(fn) if isinstance(n, ast.For) and dotted(n.iter) == params[0]]
+    if not loops:
+        raise AnalysisError("trees_to_triples: loop over the input trees not found")
+    sources: List[Tuple[str, ast.AST]] = []
+    for node in walk_no_nested(fn):
+        src = None
+        if isinstance(node, ast.Call) and isinstance(node.func, ast.Attribute) and dotted(node.func.value) == acc:
+            if node.func.attr in ("update", "add", "extend", "append") and node.args:
+                src = node.args[0]
+        elif isinstance(node, ast.AugAssign) and dotted(node.target) == acc:
+            src = node.value
+        elif isinstance(node, ast.Assign) and any(dotted(t) == acc for t in node.targets):
+            if not (isinstance(node.value, ast.Call) and dotted(node.value.func) in ("set", "list") and not node.value.args):
+                src = node.value
+        if src is None:
+            continue
+        in_tree_loop = any(l in loops for l in loops_around(fn, node))
+        sources.append((_leaf_origin(fn, src, node, loops[0]) if in_tree_loop else "outside-loop:" + _leaf_origin(fn, src, node, loops[0]), node))
+    good = [s for s, _n in sources if s == "leaves"]
+    if good:
+        res.ok(construct, f"`{acc}` receives the leaves of every tree ({len(good)} update(s) inside the loop over `{params[0]}`)")
+    else:
+        where = sources[0][1] if sources else fn
+        res.fail(
+            construct,
+            f"the returned leaf set `{acc}` is never fed with the leaves of each input tree "
+            f"(its sources: {[s for s, _n in sources] or 'none'}): leaves of trees with fewer than three leaves are lost",
+            mod,
+            where,
+        )
+    return res
+
+
+def _unwrap_collection(expr: ast.AST) -> Optional[str]:
+    while isinstance(expr, ast.Call) and dotted(expr.func) in ("list", "sorted", "set", "tuple") and len(expr.args) == 1:
+        expr = expr.args[0]
+    return dotted(expr)
+
+
+def _leaf_origin(fn: ast.AST, src: ast.AST, at: ast.AST, tree_loop: ast.For, depth: int = 0) -> str:
+    """'leaves' | 'triples' | 'unknown' - where an expression added to the leaf accumulator comes from."""
+    tree_var = dotted(tree_loop.target)
+    if depth > 5:
+        return "unknown"
+    if isinstance(src, ast.Name):
+        val = reaching(fn, src.id, at)
+        if val is None:
+            return "unknown"
+        if isinstance(val, Opaque):
+            # loop variable of an inner loop: look at what is iterated
+            for loop in loops_around(fn, at):
+                if isinstance(loop, ast.For) and src.id in {n.id for n in ast.walk(loop.target) if isinstance(n, ast.Name)}:
+                    inner = _leaf_origin(fn, loop.iter, loop, tree_loop, depth + 1)
+                    return "triples" if inner == "triples" else ("leaves" if inner == "leaves" else "unknown")
+            return "unknown"
+        return _leaf_origin(fn, val, val if hasattr(val, "lineno") else at, tree_loop, depth + 1)
+    if isinstance(src, ast.Subscript) and isinstance(src.slice, ast.Constant) and isinstance(src.slice.value, int):
+        base = src.value
+        if isinstance(base, ast.Name):
+            v = reaching(fn, base.id, at)
+            if v is not None and not isinstance(v, Opaque):
+                base = v
+        if isinstance(base, ast.Call) and dotted(base.func) == "tree_to_triples":
+            return "leaves" if src.slice.value == 0 else "triples"
+    if isinstance(src, ast.Call) and isinstance(src.func, ast.Attribute) and dotted(src.func.value) == tree_var:
+        if src.func.attr in ("get_leaf_names", "get_leaves", "iter_leaves", "iter_leaf_names"):
+            return "leaves"
+    if isinstance(src, (ast.GeneratorExp, ast.ListComp, ast.SetComp)):
+        return _leaf_origin(fn, src.generators[0].iter, at, tree_loop, depth + 1)
+    if isinstance(src, ast.Name) or dotted(src) == tree_var:
+        return "leaves" if dotted(src) == tree_var else "unknown"
+    return "unknown"
+
+
+# ---------------------------------------------------------------------------
+# balanced wrapping
+
+
+def wrap_discipline(prog: Program) -> RuleResult:
+    res = RuleResult(
+        "WRAP-DISCIPLINE",
+        "balanced_wrap only ever returns lines produced by textwrap.wrap(text, w, break_long_words=False) with "
+        "w <= the requested width (the width is only decremented), and a narrower candidate replaces the greedy "
+        "one only under a guard that its number of lines equals the greedy line count - hence every word is "
+        "kept whole, no line exceeds the width unless a single word does, and no more lines than greedy "
+        "wrapping are used (fact table: textwrap.wrap never splits a word when break_long_words=False)",
+    )
+    modname = "utils.text"
+    mod = prog.module(modname)
+    fn = prog.func(modname, "balanced_wrap")
+    params = func_params(fn)
+    width = params[1] if len(params) > 1 else "width"
+    wraps = [c for c in calls_in(fn, nested=False) if dotted(c.func) in ("textwrap.wrap", "wrap")]
+    if len(wraps) < 1:
+        raise AnalysisError("balanced_wrap: no textwrap.wrap call found")
+    for idx, call in enumerate(wraps):
+        construct = f"{modname}:balanced_wrap/wrap#{idx}"
+        blw = kwarg(call, "break_long_words")
+        warg = kwarg(call, "width", 1)
+        problems = []
+        if not (isinstance(blw, ast.Constant) and blw.value is False):
+            problems.append("break_long_words is not False: a word longer than the trial width is split across lines")
+        if warg is None or dotted(warg) != width:
+            problems.append(f"the width argument is `{short(warg)}`, not the (decremented) parameter `{width}`")
+        if problems:
+            res.fail(construct, "; ".join(problems), mod, call)
+        else:
+            res.ok(construct, short(call, 80))
+    # the width is only decremented
+    for node in walk_no_nested(fn):
+        if isinstance(node, ast.AugAssign) and dotted(node.target) == width:
+            construct = f"{modname}:balanced_wrap/width-update"
+            if isinstance(node.op, ast.Sub) and isinstance(node.value, ast.Constant) and isinstance(node.value.value, int) and node.value.value > 0:
+                res.ok(construct, short(node))
+            else:
+                res.fail(construct, f"`{short(node)}` can widen the trial width beyond the requested one", mod, node)
+        elif isinstance(node, ast.Assign) and any(dotted(t) == width for t in node.targets):
+            res.fail(f"{modname}:balanced_wrap/width-update", f"`{short(node)}` rebinds the width", mod, node)
+    # replacement of the best candidate inside a loop requires the same number of lines
+    rets = [n for n in walk_no_nested(fn) if isinstance(n, ast.Return) and n.value is not None]
+    best = None
+    for r in rets:
+        if isinstance(r.value, ast.Call) and isinstance(r.value.func, ast.Attribute) and r.value.func.attr == "join" and r.value.args:
+            best = dotted(r.value.args[0])
+    if best is None:
+        raise AnalysisError("balanced_wrap: `return sep.join(<best>)` not found")
+    greedy = None
+    for node in walk_no_nested(fn):
+        if isinstance(node, ast.Assign) and any(dotted(t) == best for t in node.targets):
+            inside = loops_around(fn, node)
+            if not inside:
+                greedy = node
+                continue
+            construct = f"{modname}:balanced_wrap/replace-best"
+            cand = dotted(node.value)
+            gs = guards(fn, node)
+            ok = False
+            for test, pol in gs:
+                if _same_line_count(fn, test, pol, cand, best, node):
+                    ok = True
+            if ok:
+                res.ok(construct, f"`{short(node)}` only when the candidate has the greedy number of lines")
+            else:
+                res.fail(construct, f"`{short(node)}` is not guarded by equality of the line counts", mod, node)
+    if greedy is None:
+        raise AnalysisError("balanced_wrap: initial (greedy) candidate not found")
+    res.floor(4)
+    return res
+
+
+def _same_line_count(fn: ast.AST, test: ast.AST, pol: bool, cand: Optional[str], best: str, at: ast.AST) -> bool:
+    """`len(cand) != line_count` known false / `len(cand) == line_count` known true, line_count = len(greedy)."""
+    if not (isinstance(test, ast.Compare) and len(test.ops) == 1):
+        return False
+    op = test.ops[0]
+    if isinstance(op, ast.NotEq) and pol or isinstance(op, ast.Eq) and not pol:
+        return False
+    if not isinstance(op, (ast.Eq, ast.NotEq)):
+        return False
+    sides = [test.left, test.comparators[0]]
+
+    def is_len_of(expr: ast.AST, name: Optional[str]) -> bool:
+        return isinstance(expr, ast.Call) and dotted(expr.func) == "len" and len(expr.args) == 1 and dotted(expr.args[0]) == name
+
+    def is_greedy_count(expr: ast.AST) -> bool:
+        if is_len_of(expr, best):
+            return True
+        if isinstance(expr, ast.Name):
+            val = reaching(fn, expr.id, at)
+            return val is not None and not isinstance(val, Opaque) and is_len_of(val, best)
+        return False
+
+    return (is_len_of(sides[0], cand) and is_greedy_count(sides[1])) or (is_len_of(sides[1], cand) and is_greedy_count(sides[0]))
+
+
 
 RULES = {
+    "GROUPS-PAIRING": groups_pairing,
+    "LEAVES-SOURCE": leaves_source,
+    "WRAP-DISCIPLINE": wrap_discipline,
     "RESTORE-PAIRING": restore_pairing,
     "FRESH-STARTS": fresh_starts,
     "INDEG-INIT": indeg_init,
